@@ -309,7 +309,7 @@ Definition run_twin (c impl : sexp) : sexp :=
   let frag := c18_fragment tc in
   let clean := clean_path (rq_path req) in
   let unamb := unambiguous O tc req in
-  (* the premises of Props.C18_agree_literal_roots (the proved positive half), evaluated on this case *)
+  (* the premises of Props.C18_agree_literal_roots or of Props.C18_agree_final (the proved positive half) *)
   let agree_hyps :=
     roots_literal (t_services t0) && roots_distinct (t_services t0) && c18_clean (rq_path req)
     && match detect_web_service O (tokenize (rq_path req)) (t_services t0) with
@@ -317,7 +317,9 @@ Definition run_twin (c impl : sexp) : sexp :=
            forallb (wf_route w) (s_routes w)
            && tokens_agree (s_root w) && forallb (fun r => tokens_agree (r_rel r)) (s_routes w)
            && forallb (jsr_names_agree w) (s_routes w)
-           && c18_service_ok w && c18_chain O w req
+           && c18_service_ok w
+           && (c18_chain O w req                                                    (* C18_agree_literal_roots *)
+               || (distinct (map (route_key w) (s_routes w)) && c18_chain_weak O w req))   (* C18_agree_final *)
        | None => true
        end in
   Lst [ Lst [routed_obs tc xc; routed_obs tj xj];
